@@ -252,6 +252,12 @@ func (c13) Exec(d any) mon.Result {
 			res.V, res.Class, res.Msg = mon.Violated, "header-mismatch", fmt.Sprintf("stream declares %dx%d c=%d P=%d", r.W, r.H, r.NC, r.P)
 			return res
 		}
+		if inf, _ := ref.WalkJPEG(stream); inf != nil {
+			if h := inf.CompleteDHT(); h != nil {
+				res.V, res.Class, res.Msg = mon.Violated, "dht-all-ones-codeword", fmt.Sprintf("Huffman table Th=%d assigns the all-1-bits code word that T.81 C.2 reserves (BITS %v)", h.ID, h.Bits[1:])
+				return res
+			}
+		}
 		if c.Sel >= 1 && c.Sel <= 7 && r.Predictor != c.Sel || c.Sel == selSV1 && r.Predictor != 1 {
 			res.V, res.Class, res.Msg = mon.Violated, "header-predictor", fmt.Sprintf("SOS Ss=%d, encoder was asked for %d", r.Predictor, c.Sel)
 			return res
